@@ -9,7 +9,7 @@ from be_check import run_be, replay_be
 
 PID = 'C06'
 MANIFEST = dict(
-    text='Machine-checked (Coq) on the backend micro-step model, for every configuration (queue kind, capacity, limits, number of sinks) and every interleaving of frontend and backend micro-steps: a flush flag is set only by processing that flush request, after it left its transit buffer (order also read from the source each run), so the processed sequence of its thread is a prefix of what the thread committed and contains the request (everything committed earlier by the caller was dispatched to its sinks, C03); processing the request flushes every active sink after all writes so far; with timestamp ordering (premises of C05) no event pending in any queue or buffer is older than any processed event, hence every other thread\'s completed statement with a smaller timestamp is processed before the flag is set; a refused flush request stays pending and is never dropped nor counted. Model run against the real backend: flush_log() callers are real threads, resumed at top level and at yield points inside poll; monitor on the implementation: when flush_log() returns, every earlier accepted statement of the caller (and, with ordering, of other threads with smaller timestamps) has a write on each of its sinks followed by a flush of that sink. Partial: "returns as long as the backend keeps running" is a liveness claim checked only by the monitor (every flush in a drained run returns), equal timestamps across threads are excluded from the other-threads clause (the backend breaks ties by cache order), the driver runs sink_min_flush_interval 0, 1 ms and 5 ms on a virtual steady clock (the idle-stage flush is modelled with its interval; the flush request ignores it).',
+    text='Machine-checked (Coq) on the backend micro-step model, for every configuration (queue kind, capacity, limits, number of sinks) and every interleaving of frontend and backend micro-steps: a flush flag is set only by processing that flush request, after it left its transit buffer (order also read from the source each run), so the processed sequence of its thread is a prefix of what the thread committed and contains the request (everything committed earlier by the caller was dispatched to its sinks, C03); processing the request flushes every active sink after all writes so far; with timestamp ordering (premises of C05) no event pending in any queue or buffer is older than any processed event, hence every other thread\'s completed statement with a smaller timestamp is processed before the flag is set; a refused flush request stays pending and is never dropped nor counted. Model run against the real backend: flush_log() callers are real threads, resumed at top level and at yield points inside poll; monitor on the implementation: when flush_log() returns, every earlier accepted statement of the caller (and, with ordering, of other threads with smaller timestamps) has a write on each of its sinks followed by a flush of that sink. Partial: "returns as long as the backend keeps running" is a liveness claim checked only by the monitor (every flush in a drained run returns), equal timestamps across threads are excluded from the other-threads clause (the backend breaks ties by cache order), the driver runs sink_min_flush_interval 0, 1 ms and 5 ms on a virtual steady clock (the idle-stage flush is modelled with its interval; the flush request ignores it). UnboundedBlocking frontends (the default queue type; initial node 256/1024 bytes so that queues grow) run through the same driver and are judged by the property monitor on the implementation only: M-BE models one bounded queue per thread, the node switching of the unbounded queue is proved and tied in C02.',
     design='5 C06', technique='Coq invariant proofs (flag => processed prefix; ordering invariant via refinement) + source-fact translator + deterministic-driver differential correspondence')
 
 
@@ -19,7 +19,7 @@ def gen(rng, facts):
     loggers = [(0, rng.sample(range(ns), rng.randint(1, ns))) for _ in range(nl)]
     soft = rng.choice([1, 2, 4, 8]); hard = rng.choice([h for h in (1, 2, 4, 8, 16) if h >= soft])
     g = rng.choice([0, 1000, 1000, 5000])
-    dropping = rng.choice([0, 1])
+    dropping = rng.choice([0, 1, 0, 1, 2])      # 2 = UnboundedBlocking (monitor-only cases)
     c = Case(dropping=dropping, capk=rng.choice([8, 10, 12]), tinit=rng.choice([1, 2, 4]), soft=soft, hard=hard,
              grace=g, loggers=loggers, sinks=[(0, []) for _ in range(ns)], facts=facts,
              fiv=rng.choice([0, 0, 1000000, 5000000]))
@@ -86,6 +86,7 @@ def corpus_cases(facts):
 
 def never_full(case):
     """no reservation can ever be refused: each thread's total traffic fits its queue"""
+    if case.dropping == 2: return True          # unbounded queue: grows instead of refusing
     C = 1 << case.capk
     tot = {}
     def add(s):
